@@ -42,13 +42,22 @@ def gen_cases(rng, n, thorough):
         pol = [2, 0, 1][(k // 3) % 3]
         if single:
             pol = 0
-        n_ev = rng.choice([1, 2, 3, 5, 8, 12])
+        many_chunks = k % 9 == 4 and not single          # more than 10 temporary chunk files
+        n_ev = rng.randint(22, 27) if many_chunks else rng.choice([1, 2, 3, 5, 8, 12])
         events = whlib.gen_wh_events(rng, n_ev, cues, outs, dups=(pol != 0), single=single)
         chain = (k % 5 == 2) and n_ev >= 2 and impl != "numpy"
         cut = rng.randint(1, n_ev - 1) if chain else None
-        cases.append({"fl": fl, "impl": impl, "eta": Fraction(1, 2 ** rng.randint(3, 6)), "cv": cv, "ov": ov,
-                      "pol": pol, "events": events, "cut": cut, "n_jobs": rng.randint(1, 4),
-                      "n_outcomes_per_job": rng.randint(1, 7), "per": rng.choice([2, 3, 10000000, 10000000])})
+        c = {"fl": fl, "impl": impl, "eta": Fraction(1, 2 ** rng.randint(3, 6)), "cv": cv, "ov": ov,
+             "pol": pol, "events": events, "cut": cut, "n_jobs": rng.randint(1, 4),
+             "n_outcomes_per_job": rng.randint(1, 7),
+             "per": 2 if many_chunks else rng.choice([2, 3, 10000000, 10000000])}
+        if chain and impl == "openmp" and rng.random() < 0.6:
+            # the continued call gets the same labelled vectors with their dimension columns (and rows) in
+            # another order: a legitimate continuation, the weights are aligned by dimension NAME
+            c["cv2"] = whlib.permute_table(rng, cv) if cv else None
+            # binary-to-real refuses outcome vector dimensions in another order (ValueError): rows only there
+            c["ov2"] = whlib.permute_table(rng, ov, columns=(fl != "b2r")) if ov else None
+        cases.append(c)
     return cases
 
 
@@ -57,6 +66,8 @@ def describe(c):
     d["eta"] = str(c["eta"])
     d["cue_vectors"] = c["cv"]
     d["outcome_vectors"] = c["ov"]
+    d["cue_vectors_of_continued_call"] = c.get("cv2")
+    d["outcome_vectors_of_continued_call"] = c.get("ov2")
     return d
 
 
@@ -68,7 +79,8 @@ def run(ctx):
         parts = [c["events"]] if c["cut"] is None else [c["events"][:c["cut"]], c["events"][c["cut"]:]]
         jobs.append({"flavour": c["fl"], "impl": c["impl"], "eta": rwlib.nd(c["eta"]), "cue_vectors": c["cv"],
                      "outcome_vectors": c["ov"], "pol": c["pol"], "parts": parts, "n_jobs": c["n_jobs"],
-                     "n_outcomes_per_job": c["n_outcomes_per_job"], "per": c["per"]})
+                     "n_outcomes_per_job": c["n_outcomes_per_job"], "per": c["per"],
+                     "cue_vectors2": c.get("cv2"), "outcome_vectors2": c.get("ov2")})
     impl = run_jobs(sc, "wh_worker", jobs)
     rep.lap("wh_runs")
     mtabs, encs, mouts = whlib.model_tables(cases)
@@ -77,7 +89,8 @@ def run(ctx):
         d = describe(c)
         rep.case(d, nontrivial=len(c["events"]) >= 2)
         rep.hist("flavour", c["fl"] + ":" + c["impl"])
-        rep.hist("chain", c["cut"] is not None)
+        rep.hist("chain", ("permuted dims" if (c.get("cv2") or c.get("ov2")) else "same vectors") if c["cut"] is not None else "no")
+        rep.hist("chunks", -(-len(c["events"]) // c["per"]))
         rep.hist("policy", {0: "None", 1: "True", 2: "False"}[c["pol"]])
         bad = None
         if r.get("status") != "ok":
